@@ -957,4 +957,33 @@ theorem default_dump_columns (atomsProps : List String) (hnd : atomsProps.Nodup)
 example : defaultDumpProps [("atype", []), ("pos", [3]), ("atom_id", []), ("stress", [3, 3])] =
     [("atom_id", []), ("atype", []), ("pos", [3]), ("stress", [3, 3])] := by decide
 
+/-- **dump_refusal_iff**: `atom_dump.dump` (model) refuses exactly when the cell is not LAMMPS-normal, the unit style
+    has no length entry, two atoms carry the same id, or a requested column cannot be built (`tableRows` fails:
+    unknown property, wrong number of names, unknown unit kind); otherwise a file is written. -/
+theorem dump_refusal_iff (s : Sys) (props : List (String × List Nat)) (u : Units) (f : Fmt) (ts : Int) :
+    isOk (writeDump s props u f ts) = false ↔
+      (s.box.isLammpsNorm = false ∨ isOk (lengthFactor u) = false ∨ hasDup (dumpIds s) = true ∨
+       isOk (tableRows s u (dumpIds s) s.pos (props.map fun p => dumpCol p.1 p.2) []) = false) := by
+  unfold writeDump writeDumpDoc
+  cases hp : s.prop? "atom_id" <;>
+  simp only [dumpIds, hp, bind, Except.bind, pure, Except.pure, throw, throwThe, MonadExceptOf.throw] <;>
+  (cases hnorm : s.box.isLammpsNorm
+   · simp [isOk, Except.map]
+   · cases hlf : lengthFactor u with
+     | error e => simp [isOk, Except.map]
+     | ok lf =>
+       simp only [Bool.not_true, Bool.false_eq_true, if_false]
+       split
+       · rename_i hdup
+         simp_all [isOk, Except.map]
+       · rename_i hdup
+         split
+         · rename_i e hrows
+           simp_all [isOk, Except.map]
+         · rename_i rows hrows
+           simp_all [isOk, Except.map])
+
+example : isOk (writeDump ({ exSys with props := [⟨"atom_id", true, 1, [[5], [5]]⟩] }) exProps exUnits (.fixed 3) 0) = false := by
+  decide +kernel
+
 end Atomman.C07
